@@ -114,3 +114,21 @@ Theorem C03_immutable_mutate : forall T C, find_col T (c_name C) = Some C -> c_m
   forall ms r r', row_mutate T r ms = Ok r' -> r' !! c_name C = r !! c_name C.
 Proof. exact row_mutate_immutable. Qed.
 Print Assumptions C03_immutable_mutate.
+
+(** wait (RFC 7047 5.2.6): a selected row matches an expected row exactly when
+    it holds, in every compared column, the value the expected row stands for
+    there - what it says, or the column's default when the operation names no
+    columns and the row leaves the column out.  A guard that leaves a column
+    out is therefore not vacuous (the compare-and-swap of C17 relies on it). *)
+Theorem C03_wait_matches : forall T all cols found expected,
+  wait_matches T all cols found expected = true <->
+  forall c, c ∈ cols -> forall v, expected_value T all expected c = Some v -> found !! c = v.
+Proof. exact wait_matches_spec. Qed.
+Print Assumptions C03_wait_matches.
+
+Theorem C03_wait_left_out_column_is_its_default : forall T cols found expected c C v,
+  c ∈ cols -> expected !! c = None -> find_col T c = Some C ->
+  found !! c = Some v -> v <> default_value (c_ty C) ->
+  wait_matches T true cols found expected = false.
+Proof. exact wait_all_columns_left_out_is_default. Qed.
+Print Assumptions C03_wait_left_out_column_is_its_default.
